@@ -461,6 +461,8 @@ def controls(chk):
     got3 = {(o["rule"], o["function"]) for o in sub3.obl if o["verdict"] == "VIOLATED"}
     chk.control("K6-src", ("K6-src", "ctl_src_wrap") in got3, "copy out of a field buffer guarded by a 32 bit sum that wraps")
     chk.control("K6-src/silent", ("K6-src", "ctl_src_ok") not in got3 and ("K6-src", "ctl_src_sum64") not in got3, "guarded copy out of a field buffer must not be reported")
+    chk.control("K6-memver", ("K6", "ctl_stale_guard") in got, "a field is compared, rewritten by a callee, then used as the length")
+    chk.control("K6-memver/silent", ("K6", "ctl_fresh_guard") not in got, "a call in between that writes another field must not matter")
     chk.control("K6-growth", ("K6", "ctl_grow_bad") in got, "buffer grown until the new entry alone fits, ignoring what is stored already")
     from ..dangling import run_dangling
     sub2 = Check("C05-control", chk.tier)
